@@ -35,24 +35,23 @@ def run(tier, rep, replay=None):
             tr[(name, seed)] = ls
     merged = []
     for seed in seeds:
-        n = max(len(tr[(c[0], seed)]) for c in CONFIGS)
-        counters = {}
-        for i in range(n):
-            ref = None
-            for c in CONFIGS:
-                t = tr[(c[0], seed)]
-                if i < len(t):
-                    ref = t[i]
-                    break
-            prim = "%s#%d" % (ref["prim"], seed)
-            counters[prim] = counters.get(prim, 0) + 1
-            e = {"tr": prim, "prim": prim, "k": counters[prim], "op": ref["op"], "ins": {}, "outs": {}}
-            for c in CONFIGS:
-                t = tr[(c[0], seed)]
-                if i < len(t):            # a shorter transcript leaves the configuration out of the line: Agree fails
-                    e["ins"][c[0]] = t[i]["prim"] + "|" + t[i]["op"] + "|" + t[i]["in"]
-                    e["outs"][c[0]] = t[i]["out"]
-            merged.append(e)
+        # per primitive: the k-th line of the primitive's own transcript under every configuration (a divergence stays inside its primitive)
+        per = {}
+        for c in CONFIGS:
+            for ln in tr[(c[0], seed)]:
+                per.setdefault(ln["prim"], {}).setdefault(c[0], []).append(ln)
+        for prim0, byc in per.items():
+            prim = "%s#%d" % (prim0, seed)
+            n = max(len(v) for v in byc.values())
+            for k in range(n):
+                ref = next(v[k] for v in byc.values() if k < len(v))
+                e = {"tr": prim, "prim": prim, "k": k + 1, "op": ref["op"], "ins": {}, "outs": {}}
+                for c in CONFIGS:
+                    t = byc.get(c[0], [])
+                    if k < len(t):        # a shorter transcript leaves the configuration out of the line: Agree fails
+                        e["ins"][c[0]] = t[k]["prim"] + "|" + t[k]["op"] + "|" + t[k]["in"]
+                        e["outs"][c[0]] = t[k]["out"]
+                merged.append(e)
     merged.sort(key=lambda e: (e["tr"], e["k"]))
     acc, rejected, states = C.validate_stateful(w, "Trace_Lockstep", "Trace_Lockstep.cfg", merged, max_rounds=60, timeout=3000)
     for t, ln, tail in rejected:
@@ -86,7 +85,7 @@ def run(tier, rep, replay=None):
 
 
 MANIFEST = {
- "text": "A seeded, edge-biased transcript of public operations (fp25519 / fp448 incl. all-ones and complementary unreduced operands and aliased destinations; X25519 / X448 incl. low-order and non-canonical points; FourQ / Curve4Q; P-384 incl. scalar = order and CombinedMult; Ed25519 / Ed448 incl. ctx and ph variants and altered signatures; every kem/schemes KEM (Kyber, ML-KEM, hybrids, X-Wing, FrodoKEM, SIKE) with derive / encapsulate / decapsulate / altered ciphertext / key round trips; every sign/schemes scheme; SHAKE, SHA-3, TurboSHAKE, BLAKE2X, KangarooTwelve with ONE write of up to 33 chunks and with random chunkings; keccakf1600 scalar vs x2 / x4; HPKE over 5 KEMs x 2 AEADs; CSIDH) is run under 7 configurations: default, cpu.avx2=off, cpu.bmi2=off, cpu.adx=off, all three off, -tags purego, purego with all three off. TLC replays the merged transcript against Lockstep.tla (per primitive: consecutive lines, same input digest and same output digest under every configuration); MC_Lockstep shows the specification catches a back-end that deviates on one input.",
+ "text": "A seeded, edge-biased transcript of public operations (fp25519 / fp448 incl. all-ones and complementary unreduced operands and aliased destinations; X25519 / X448 incl. low-order and non-canonical points; FourQ / Curve4Q incl. crafted valid points whose y-coordinate forces a borrow across the word boundary in the vectorised GF(p^2) squaring; P-384 incl. scalar = order and CombinedMult; Ed25519 / Ed448 incl. ctx and ph variants and altered signatures; every kem/schemes KEM (Kyber, ML-KEM, hybrids, X-Wing, FrodoKEM, SIKE) with derive / encapsulate / decapsulate / altered ciphertext / key round trips; every sign/schemes scheme; SHAKE, SHA-3, TurboSHAKE, BLAKE2X, KangarooTwelve with ONE write of up to 33 chunks and with random chunkings; keccakf1600 scalar vs x2 / x4; HPKE over 5 KEMs x 2 AEADs; CSIDH) is run under 7 configurations: default, cpu.avx2=off, cpu.bmi2=off, cpu.adx=off, all three off, -tags purego, purego with all three off. TLC replays the merged transcript against Lockstep.tla (per primitive: consecutive lines, same input digest and same output digest under every configuration); MC_Lockstep shows the specification catches a back-end that deviates on one input.",
  "note": "Inputs are seeded and finite; thorough runs three seeds with four times the repetitions and longer single writes.",
  "technique": "lock-step differential transcript across build/CPU configurations, judged by TLC against a deterministic-machine specification (Lockstep.tla)",
 }
